@@ -1,3 +1,4 @@
+import PT.Lemmas.Refine
 import PT.Lemmas.Map
 /-!
 # C09 — Shortest-prefix match and cover list exactly the covering entries, in order
@@ -69,5 +70,13 @@ theorem cover_finite (m : PMap w V) (q : Pfx w) : (m.cover q).length ≤ m.root.
     · simp only [List.length_append, Tree.size] at *; omega
     · simp only [List.length_append, Tree.size] at *; omega
     · simp only [List.length_nil, Tree.size]; omega
+
+
+/-- `cover` / `get_spm` compute the specification's filter and arg-min over the abstract map -/
+theorem cover_eq_spec {m : PMap w V} (h : m.TreeWF) (q : Pfx w) : m.cover q = Spec.cover m.entries q :=
+  PMap.cover_refines h q
+
+theorem getSpm_eq_spec {m : PMap w V} (h : m.TreeWF) (q : Pfx w) : m.getSpm q = Spec.spm m.entries q :=
+  PMap.getSpm_refines h q
 
 end PT.C09
